@@ -43,6 +43,49 @@ def make_file(rnd, big=False):
     return body, recs
 
 
+def make_straddle(rnd, bound, k):
+    """a well-formed file of small records in which one record header begins at offset bound - k"""
+    magic = rnd.choice([pcapfmt.MAGIC_US, pcapfmt.MAGIC_NS])
+    recs = []
+    off = 24
+    target = bound - k
+
+    def rec(n):
+        data = bytes(rnd.randrange(256) for _ in range(min(n, 48))) * (n // 48 + 1)
+        return {"data": data[:n], "ts_sec": rnd.randrange(1 << 32), "ts_sub": rnd.randrange(1000000), "wirelen": n + rnd.randrange(3)}
+    while target - off > 16 + 400:
+        n = rnd.choice([40, 60, 86, 100, 200, 333])
+        recs.append(rec(n))
+        off += 16 + n
+    # the last filler ends exactly at the target
+    recs.append(rec(target - off - 16))
+    off = target
+    for _ in range(rnd.randint(2, 6)):
+        recs.append(rec(rnd.choice([0, 1, 20, 86, 100])))
+    return pcapfmt.pcap_file(recs, magic=magic, snaplen=65535, linktype=1, vmaj=2, vmin=4), recs
+
+
+def add_item(rnd, d, items, tag, data, big):
+    calls = []
+    for _ in range(rnd.randint(1, 6)):
+        if rnd.random() < 0.6:
+            calls.append({"op": "next"})
+        else:
+            calls.append({"op": "all", "n": rnd.choice([-1, -1, 0, 1, 2, 3, 100])})
+    calls.append({"op": rnd.choice(["next", "all"]), "n": -1})
+    calls.append({"op": "next"})
+    it = {"id": len(items), "tag": tag, "file": data, "calls": calls, "big": big}
+    it["path"] = os.path.join(d, "f%d.pcap" % it["id"])
+    it["outbase"] = os.path.join(d, "o%d" % it["id"])
+    open(it["path"], "wb").write(data)
+    # every 4th history reads the same bytes as a stream on standard input (pcap_stream), through the binary
+    it["via_stdin"] = (len(items) % 4 == 3) and not big
+    it["src"] = script_for(it["path"], it["outbase"], calls, via_stdin=it["via_stdin"], look=(len(items) % 3 == 1))
+    if it["via_stdin"]:
+        it["tag"] += " via-stdin"
+    items.append(it)
+
+
 def damage(rnd, body, recs):
     """returns (tag, bytes)"""
     r = rnd.random()
@@ -151,24 +194,19 @@ def run(rep, tier, seed):
             else:
                 variants = [damage(rnd, body, recs) for _ in range(2)]
             for tag, data in variants:
-                calls = []
-                for _ in range(rnd.randint(1, 6)):
-                    if rnd.random() < 0.6:
-                        calls.append({"op": "next"})
-                    else:
-                        calls.append({"op": "all", "n": rnd.choice([-1, -1, 0, 1, 2, 3, 100])})
-                calls.append({"op": rnd.choice(["next", "all"]), "n": -1})
-                calls.append({"op": "next"})
-                it = {"id": len(items), "tag": tag, "file": data, "calls": calls, "big": big}
-                it["path"] = os.path.join(d, "f%d.pcap" % it["id"])
-                it["outbase"] = os.path.join(d, "o%d" % it["id"])
-                open(it["path"], "wb").write(data)
-                # every 4th history reads the same bytes as a stream on standard input (pcap_stream), through the binary
-                it["via_stdin"] = (len(items) % 4 == 3) and not big
-                it["src"] = script_for(it["path"], it["outbase"], calls, via_stdin=it["via_stdin"], look=(len(items) % 3 == 1))
-                if it["via_stdin"]:
-                    it["tag"] += " via-stdin"
-                items.append(it)
+                add_item(rnd, d, items, tag, data, big)
+        # a record header that straddles a refill of the reader's 8192-byte buffer: small records laid out so that a
+        # header begins k bytes (1..15) before a multiple of 8192 (every read so far was shorter than the buffer, so
+        # the refills fall on those multiples), followed by further records that must still be delivered
+        bounds = (8192, 16384) if tier == "quick" else (8192, 16384, 24576, 40960)
+        for bi, bound in enumerate(bounds):
+            for k in range(1, 16):
+                if tier == "quick" and bi > 0 and k % 3 != bi % 3:
+                    continue
+                body, recs = make_straddle(rnd, bound, k)
+                add_item(rnd, d, items, "straddle intact", body, True)
+                if tier == "thorough" or k % 5 == 0:
+                    add_item(rnd, d, items, "straddle cut", body[:bound + rnd.randrange(0, 40)], True)
         res = core.run_cases([{"id": it["id"], "src": it["src"]} for it in items if not it["via_stdin"]], deadline_ms=60000)
         sitems = [it for it in items if it["via_stdin"]]
         if sitems:
@@ -256,7 +294,7 @@ def run(rep, tier, seed):
         rep.cov["rule"] = ("random pcap files (0-50 records; sizes 0/1/2/14..17/60/64/100 and, every 60th file, around the 8192-byte "
                            "buffer boundary and 65535; both magics; snaplen 100 / 65535 / 262144 / 2^32-1) x damage (intact, cut at a "
                            "random [thorough: every] offset, caplen above snaplen, bad magic, short global header, trailing garbage) "
-                           "x random call sequences of 3-8 pcap_read_next / pcap_read_all(f[, n]); distinct = distinct (damage, "
+                           "x random call sequences of 3-8 pcap_read_next / pcap_read_all(f[, n]); plus files of small records in which a record header begins 1..15 bytes before a multiple of 8192 (the reader's buffer refill), intact and cut just behind it; distinct = distinct (damage, "
                            "complete records, call sequence)")
         rep.cov["exhaustive"] = False
         rep.sample({"script": items[1]["src"], "calls": items[1]["obs_calls"][:2], "file_len": len(items[1]["file"])})
